@@ -3,6 +3,7 @@ import random
 random.seed()
 
 from pysnark.runtime import LinComb
+from pysnark.boolean import LinCombBool
 
 class PackBool:
     def random(self): return random.randrange(0,2)
@@ -33,7 +34,7 @@ class PackIntMod:
             return [(val & (1 << i)) >> i for i in range((self.mod-1).bit_length())]
         
     def unpack(self, bits, pos):
-        if isinstance(bits[pos],LinComb):
+        if isinstance(bits[pos],(LinComb,LinCombBool)):
             # lincomb in: boundary checking
             ret = LinComb.from_bits(bits[pos:pos+self.bitlen()])
             ret.assert_lt(self.mod)
